@@ -218,6 +218,57 @@ def h_halfpeak(H):
     S.explore(body)
 
 
+@harness(PROPERTY, "derived_features_scale", functions=["ibldsp.waveforms:peak_to_trough_ratio", "ibldsp.waveforms:peak_to_trough_duration", "ibldsp.waveforms:half_peak_duration",
+                                                        "ibldsp.waveforms:polarisation_slopes", "ibldsp.waveforms:recovery_slope"],
+         clause="scaling the waveform by c > 0 scales all values and leaves all indices unchanged: the derived columns (ratio, durations, slopes) computed from scaled values and the same indices")
+def h_derived(H):
+    S = H.session("derived.scale")
+
+    def body(it):
+        n = z3.Int("nwav")
+        c = z3.Real("c")
+        fs = z3.Real("fs")
+        it.ctx.assume(z3.And(n >= 1, c > 0, fs > 0))
+        idx_cols = ("peak_time_idx", "trough_time_idx", "tip_time_idx", "half_peak_post_time_idx", "half_peak_pre_time_idx", "recovery_time_idx")
+        val_cols = ("peak_val", "trough_val", "tip_val", "recovery_val")
+        base = {k_: A.fresh_array(k_, "int64", (n,), ranged=False) for k_ in idx_cols}
+        vals = {k_: A.fresh_array(k_, "float64", (n,)) for k_ in val_cols}
+        q = z3.Int(fresh_name("q"))
+        for v_ in vals.values():
+            it.ctx.assume(z3.ForAll([q], v_.uf(q) != NAN))
+
+        def frame(scale):
+            cols = {k_: v_.copy() for k_, v_ in base.items()}
+            for k_, v_ in vals.items():
+                s_ = v_.snapshot()
+                cols[k_] = SArr(np.float64, v_.shape, (lambda s_: (lambda idx: s_(idx) * scale))(s_)) if scale is not None else v_.copy()
+            return pdmodel.SFrame(cols)
+        out = []
+        for scale in (None, c):
+            df = frame(scale)
+            for fn, kw in ((W.peak_to_trough_ratio, {}), (W.peak_to_trough_duration, {"fs": SV(fs)}), (W.half_peak_duration, {"fs": SV(fs)}), (W.polarisation_slopes, {"fs": SV(fs)}), (W.recovery_slope, {"fs": SV(fs)})):
+                df = run_function(it, fn, [df], kw)
+            out.append(df)
+        a, b = out
+        i = z3.Int(fresh_name("i0"))
+        it.ctx.assume(z3.And(i >= 0, i < n))
+        col = lambda d, k_: d[k_].to_numpy().read((i,))       # noqa
+        it.ctx.oblige("derived.durations_unchanged", z3.And(col(a, "peak_to_trough_duration") == col(b, "peak_to_trough_duration"), col(a, "half_peak_duration") == col(b, "half_peak_duration")), "post", assume=False)
+        it.ctx.oblige("derived.duration_formulas", z3.And(col(a, "peak_to_trough_duration") * fs == z3.ToReal(base["trough_time_idx"].read((i,)) - base["peak_time_idx"].read((i,))),
+                      col(a, "half_peak_duration") * fs == z3.ToReal(base["half_peak_post_time_idx"].read((i,)) - base["half_peak_pre_time_idx"].read((i,)))), "post",
+                      "durations are index differences over the sampling rate", assume=False)
+        it.ctx.oblige("derived.ratio_unchanged", z3.Implies(vals["trough_val"].read((i,)) != 0, z3.And(col(a, "peak_to_trough_ratio") == col(b, "peak_to_trough_ratio"), col(a, "peak_to_trough_ratio_log") == col(b, "peak_to_trough_ratio_log"))), "post",
+                      "the peak-to-trough ratio (and its logarithm) does not depend on the amplitude unit", assume=False)
+        ab = lambda x: z3.If(x >= 0, x, -x)       # noqa
+        it.ctx.oblige("derived.ratio_formula", z3.Implies(vals["trough_val"].read((i,)) != 0, col(a, "peak_to_trough_ratio") * ab(vals["trough_val"].read((i,))) == ab(vals["peak_val"].read((i,)))), "post", assume=False)
+        nz = lambda k1, k2: base[k1].read((i,)) != base[k2].read((i,))       # noqa
+        it.ctx.oblige("derived.slopes_scale", z3.And(z3.Implies(nz("peak_time_idx", "tip_time_idx"), col(b, "depolarisation_slope") == c * col(a, "depolarisation_slope")),
+                      z3.Implies(nz("trough_time_idx", "peak_time_idx"), col(b, "repolarisation_slope") == c * col(a, "repolarisation_slope")),
+                      z3.Implies(nz("recovery_time_idx", "trough_time_idx"), col(b, "recovery_slope") == c * col(a, "recovery_slope"))), "post",
+                      "slopes scale with the amplitude (wherever the two samples they join differ)", assume=False)
+    S.explore(body)
+
+
 def replay_recovery(vals, oid):
     T = 20
     bad = []
